@@ -282,6 +282,8 @@ func runC09(c *Ctx) {
 	c.Emit("full", "ChunkSlice result chunk by chunk vs Chunk.chunks", im, "N * N * list (N * N)", "chk_full", full, fullR, 300)
 	c.Emit("rle", "run-length of chunk sizes vs Chunk.lens_rle", im, "N * N * list (N * N)", "chk_rle", rle, rleR, 700)
 	c.Emit("member", "VBucketDiscovery.Get() range vs Chunk.member_range", im, "N * N * N * (N * N)", "chk_member", mem, memR, 500)
+	// the file backend holds the checkpoints of vBuckets that left the range: the member still streams exactly its chunk
+	runC04File(c)
 }
 
 func minInt(a, b int) int {
